@@ -139,6 +139,11 @@ type sys struct {
 	base  []string       // listing of S right after construction
 
 	observeEach bool // run the observers after every mutation (config "observe=each")
+	observeOp   bool // "Observe" is an operation of the alphabet (config "observe=op")
+	// lastObs is what the observers saw the last time they ran on this
+	// instance (nil = never): the abstraction of any read-side cache the
+	// stores may keep, part of the state key.
+	lastObs map[string]int
 }
 
 // decoy files planted in S (the parent of the keystore directory).  A key
@@ -149,11 +154,9 @@ func decoys() map[string][]byte {
 		return "key_" + strings.ToLower(base32.StdEncoding.WithPadding(base32.NoPadding).EncodeToString([]byte(n)))
 	}
 	return map[string][]byte{
-		"x":          db, // target of "../x" if the name were used as a path
-		enc("../x"):  db, // encoded names one level up
-		enc("a"):     db,
-		"ks.sibling": db,
-		"sub/b":      db,
+		"x":         db, // target of "../x" if the name were used as a path
+		enc("../x"): db, // encoded name one level up
+		"sub/b":     db,
 	}
 }
 
@@ -167,7 +170,7 @@ func newSys(cfg string) eng.Sys {
 		panic(err)
 	}
 	top, _ = filepath.Abs(top)
-	s := &sys{top: top, ksdir: filepath.Join(top, "ks"), mfs: map[string]int{}, mmem: map[string]int{}, observeEach: cfg == "observe=each"}
+	s := &sys{top: top, ksdir: filepath.Join(top, "ks"), mfs: map[string]int{}, mmem: map[string]int{}, observeEach: cfg == "observe=each", observeOp: cfg == "observe=op"}
 	for n, b := range decoys() {
 		p := filepath.Join(top, n)
 		os.MkdirAll(filepath.Dir(p), 0o700)
@@ -225,6 +228,9 @@ func (s *sys) Ops() []string {
 		}
 	}
 	ops = append(ops, "PutEmpty")
+	if s.observeOp {
+		ops = append(ops, "Observe")
+	}
 	return ops
 }
 
@@ -262,11 +268,22 @@ func feats(n nameT, present bool, which string) []string {
 // mutation is followed by the pure observers (Has/Get of every pool name and
 // List on both stores, compared with the model) on the SAME instances, so
 // reads are interleaved with writes as a caller could interleave them (a read
-// cache that is not invalidated is reached); in "observe=end" no observer runs
-// before the final Check, so mutation-only histories are covered as well.
+// cache that is not invalidated is reached); in "observe=op" the observers are an operation of their own, so any placement of reads is covered;
+// mutation-only histories are covered as well.
 func (s *sys) Do(op string) (string, *eng.Violation) {
+	if op == "Observe" {
+		// the pure observers as an operation: any placement of reads between
+		// the mutations is a path of the search
+		v := observe("fs", s.fs, s.mfs)
+		if v == nil {
+			v = observe("mem", s.mem, s.mmem)
+		}
+		s.snapshotObs()
+		return "observed", v
+	}
 	o, v := s.do(op)
 	if v == nil && s.observeEach {
+		defer s.snapshotObs()
 		if v = observe("fs", s.fs, s.mfs); v == nil {
 			v = observe("mem", s.mem, s.mmem)
 		}
@@ -392,8 +409,19 @@ func modelKey(m map[string]int) string {
 	return strings.Join(out, ",")
 }
 
+func (s *sys) snapshotObs() {
+	s.lastObs = map[string]int{}
+	for n, k := range s.mfs {
+		s.lastObs[n] = k
+	}
+}
+
 func (s *sys) Key() string {
-	return "fs{" + modelKey(s.mfs) + "} mem{" + modelKey(s.mmem) + "} dir{" + strings.Join(s.ksListing(), ";") + "}"
+	obs := "never"
+	if s.lastObs != nil {
+		obs = "{" + modelKey(s.lastObs) + "}"
+	}
+	return "fs{" + modelKey(s.mfs) + "} mem{" + modelKey(s.mmem) + "} dir{" + strings.Join(s.ksListing(), ";") + "} lastobs" + obs
 }
 
 type store interface {
@@ -492,12 +520,12 @@ func (s *sys) Check() *eng.Violation {
 func spec(r *eng.Run) eng.SeqSpec {
 	theRun = r
 	initDomains(r)
-	return eng.SeqSpec{Configs: []string{"observe=each", "observe=end"}, New: newSys, Depth: 4}
+	return eng.SeqSpec{Configs: eng.Pick(r, []string{"observe=op"}, []string{"observe=each", "observe=op"}), New: newSys, Depth: 4}
 }
 
 func main() {
 	eng.Main("C40", "model_checking", func(r *eng.Run) {
-		r.Rule("BFS over all sequences of Put(name,key)/Delete(name)/Put(\"\") applied to a fresh FSKeystore and a fresh MemKeystore, in 2 configurations: observe=each (after every mutation Has/Get of every pool name and List run on the same instances and are compared with the model, so reads are interleaved with writes) and observe=end (no observer before the final check); successor = replay on fresh instances + 1 op; state = name->key maps + listing of the keystore directory; after every transition Has/Get for every pool name and List on both stores (and on a re-opened FSKeystore) are compared with the map model, and the listing+contents of the keystore directory and of its parent (with decoy key files planted where an unencoded name would land) are compared with the expected files; non-trivial = path of >= 2 operations")
+		r.Rule("BFS over all sequences of Put(name,key)/Delete(name)/Put(\"\") applied to a fresh FSKeystore and a fresh MemKeystore, in the configurations observe=each (thorough only) (after every mutation Has/Get of every pool name and List run on the same instances and are compared with the model, so reads are interleaved with writes) and observe=op (the observers are one operation Observe of the alphabet, so every placement of reads between the mutations - none, some, all - is a path; what they last saw is part of the state key); successor = replay on fresh instances + 1 op; state = name->key maps + listing of the keystore directory; after every transition Has/Get for every pool name and List on both stores (and on a re-opened FSKeystore) are compared with the map model, and the listing+contents of the keystore directory and of its parent (with decoy key files planted where an unencoded name would land) are compared with the expected files; non-trivial = path of >= 2 operations")
 		r.Assume(fmt.Sprintf("scratch filesystem has NAME_MAX=%d (probed at start) and is case-sensitive or not - the encoding is lower-case only", nameMax))
 		r.Assume("names whose encoded file name exceeds NAME_MAX are outside the quantified domain: for them only 'a refused operation changes nothing' and confinement are demanded")
 		if err := probeNameMax(); err != nil {
